@@ -1,18 +1,23 @@
 //! C16 harness: constraints are enforced on exactly the intended steps.
 //!   c16 corr <seed> <nmax> <group>   -> lines "<case> => <impl result>"; groups:
-//!        ctor len ovl ft fa bc prep ex
+//!        ctor len ovl ft fa bc prep ex lag
+//!   c16 corr <seed> <nmax> lag <L> <LF>  Lagrange kernel constraints: trace lengths 2^1..2^L on three fields (+ 2^14, 2^16 on f64),
+//!                                        zero pattern of every divisor over the whole trace domain; for n <= 2^LF the model
+//!                                        side evaluates its divisor at every domain point, above it uses the proved row sets
 //!   c16 falsify <seed> <nmax>        -> JSON lines (one per property failure found against the brute-force oracle),
 //!                                        then "evaluations=<n> failures=<k>"
 //! Trace lengths: all powers of two 8..=nmax (nmax = 64 quick, 256 thorough), fully enumerated.
 use std::collections::BTreeSet;
 use std::panic::AssertUnwindSafe;
 
-use wf_harness::{catch, jstr, prng::Rng, refmath::*, silence_panics};
+use wf_harness::{catch, jstr, lagfam::LagAir, prng::Rng, refmath::*, silence_panics};
 use winter_air::{
-    AirContext, Assertion, BoundaryConstraints, ConstraintDivisor, FieldExtension, ProofOptions, TraceInfo,
-    TransitionConstraintDegree,
+    Air, AirContext, Assertion, BoundaryConstraints, ConstraintDivisor, FieldExtension, LagrangeConstraintsCompositionCoefficients,
+    LagrangeKernelConstraints, LagrangeKernelEvaluationFrame, LagrangeKernelRandElements, LagrangeKernelTransitionConstraints,
+    ProofOptions, TraceInfo, TransitionConstraintDegree,
 };
-use winter_math::{fields::f128, fields::f62, fields::f64, FieldElement, StarkField};
+use winter_crypto::{hashers::Blake3_256, DefaultRandomCoin, RandomCoin};
+use winter_math::{fft, fields::f128, fields::f62, fields::f64, ExtensibleField, FieldElement, StarkField};
 
 // ---------------------------------------------------------------- fields
 trait Fld: StarkField + FieldElement<BaseField = Self> {
@@ -380,6 +385,170 @@ fn corr_ex(nmax: usize, out: &mut Vec<String>) {
     }
 }
 
+
+// ---------------------------------------------------------------- Lagrange kernel constraints
+// air/src/air/lagrange/{transition,boundary,frame,mod}.rs.  The real constraints are obtained the way the prover and the
+// verifier obtain them: an AIR with a Lagrange kernel column (harness/src/lagfam.rs) draws the composition coefficients
+// (`get_constraint_composition_coefficients`: trace_len.ilog2() of them) and builds `LagrangeKernelConstraints` through
+// `get_lagrange_kernel_constraints`.  TraceInfo refuses traces shorter than 8, so for n = 2, 4 the constraints are built
+// directly from log2(n) coefficients.  E = B.
+trait LFld: Fld + ExtensibleField<2> + ExtensibleField<3> {}
+impl<T: Fld + ExtensibleField<2> + ExtensibleField<3>> LFld for T {}
+
+fn lag_air<B: LFld>(n: usize) -> LagAir<B> {
+    LagAir::<B>::new(TraceInfo::new_multi_segment(1, 2, 1, n, vec![]), (), ProofOptions::new(1, 2, 0, FieldExtension::None, 2, 1))
+}
+
+/// (number of Lagrange transition coefficients the AIR drew, the constraints built from them)
+fn lag_from_air<B: LFld>(n: usize, seed: u64) -> (usize, LagrangeKernelConstraints<B>) {
+    let v = n.ilog2() as usize;
+    let rand = LagrangeKernelRandElements::new((0..v).map(|i| B::from_u128(3 + i as u128)).collect());
+    if n >= 8 {
+        let air = lag_air::<B>(n);
+        let mut coin = DefaultRandomCoin::<Blake3_256<B>>::new(&[B::from_u128(seed as u128)]);
+        let cc = air.get_constraint_composition_coefficients::<B, _>(&mut coin).expect("coefficients");
+        let lcc = cc.lagrange.expect("the AIR has a Lagrange kernel column");
+        let ncoef = lcc.transition.len();
+        (ncoef, air.get_lagrange_kernel_constraints(lcc, &rand).expect("constraints"))
+    } else {
+        let lcc = LagrangeConstraintsCompositionCoefficients { transition: (0..v).map(|i| B::from_u128(7 + i as u128)).collect(), boundary: B::ONE };
+        (v, LagrangeKernelConstraints::new(lcc, &rand, 0))
+    }
+}
+
+/// constraints with GIVEN coefficients (through the AIR for n >= 8)
+fn lag_with<B: LFld>(n: usize, coefs: &[B], cb: B, rand: &[B]) -> LagrangeKernelConstraints<B> {
+    let lcc = LagrangeConstraintsCompositionCoefficients { transition: coefs.to_vec(), boundary: cb };
+    let rand = LagrangeKernelRandElements::new(rand.to_vec());
+    if n >= 8 { lag_air::<B>(n).get_lagrange_kernel_constraints(lcc, &rand).expect("constraints") } else { LagrangeKernelConstraints::new(lcc, &rand, 0) }
+}
+
+/// rows 4j..4j+3 -> hex digit j (row 4j is the most significant bit; padded with zeros)
+fn hexbits(b: &[bool]) -> String {
+    b.chunks(4).map(|c| { let mut d = 0u32; for i in 0..4 { d = 2 * d + (i < c.len() && c[i]) as u32; } std::char::from_digit(d, 16).unwrap() }).collect()
+}
+
+/// number of divisors = number of leading indexes evaluate_ith_divisor accepts
+fn lag_num_divisors<B: LFld>(tc: &LagrangeKernelTransitionConstraints<B>, upto: usize) -> usize {
+    (0..upto).take_while(|&i| catch(AssertUnwindSafe(|| tc.evaluate_ith_divisor::<B>(i, B::from_u128(5)))).is_ok()).count()
+}
+
+/// zero pattern of the divisor of constraint k (numbered from 1) over the whole trace domain
+fn lag_divisor_pattern<B: LFld>(tc: &LagrangeKernelTransitionConstraints<B>, k: usize, n: usize) -> Result<Vec<bool>, String> {
+    catch(AssertUnwindSafe(|| {
+        let g: B = root(n);
+        let mut x = B::ONE;
+        let mut bits = Vec::with_capacity(n);
+        for _ in 0..n { bits.push(tc.evaluate_ith_divisor::<B>(k - 1, x) == B::ZERO); x *= g; }
+        bits
+    }))
+}
+
+fn lag_lengths(name: &str, l: u32) -> Vec<usize> {
+    let mut v: Vec<usize> = (1..=l).map(|e| 1usize << e).collect();
+    if name == "f64" { for e in [14u32, 16] { if e > l { v.push(1usize << e); } } }
+    v
+}
+
+/// the Lagrange kernel column for random elements r (bit b of the row selects r_b or 1 - r_b), as lagfam builds it
+fn lag_kernel_column<B: LFld>(r: &[B], n: usize) -> Vec<B> {
+    (0..n).map(|row| r.iter().enumerate().fold(B::ONE, |acc, (bit, &ri)| if row & (1 << bit) == 0 { acc * (B::ONE - ri) } else { acc * ri })).collect()
+}
+fn lag_interpolate<B: LFld>(col: &[B]) -> Vec<B> {
+    let mut v = col.to_vec();
+    let tw = fft::get_inv_twiddles::<B>(v.len());
+    fft::interpolate_poly(&mut v, &tw);
+    v
+}
+fn hxl<B: Fld>(v: &[B]) -> String { if v.is_empty() { "-".into() } else { v.iter().map(|&e| hx(e)).collect::<Vec<_>>().join(",") } }
+
+fn corr_lag<B: LFld>(r: &mut Rng, seed: u64, l: u32, lf: u32, out: &mut Vec<String>) {
+    for n in lag_lengths(B::NAME, l) {
+        let v = n.ilog2() as usize;
+        let g: B = root(n);
+        // number of constraints / divisors
+        let res = catch(AssertUnwindSafe(|| {
+            let (ncoef, cons) = lag_from_air::<B>(n, seed);
+            format!("ncoef={:x} nc={:x} ndiv={:x}", ncoef, cons.transition.num_constraints(), lag_num_divisors(&cons.transition, ncoef + 2))
+        })).unwrap_or_else(|_| "panic".into());
+        out.push(format!("lagn {} {:x} => {}", B::NAME, n, res));
+        // every constraint k = 1..log2 n (the range comes from the trace length, not from the library's count): zero
+        // pattern of its divisor over the WHOLE trace domain, value at two random points
+        let cons = catch(AssertUnwindSafe(|| lag_from_air::<B>(n, seed).1));
+        for k in 1..=v {
+            let (x1, x2): (B, B) = (rand_elem(r), rand_elem(r));
+            let res = match &cons {
+                Err(_) => "panic".to_string(),
+                Ok(c) => match lag_divisor_pattern(&c.transition, k, n) {
+                    Err(_) => "panic".to_string(),
+                    Ok(bits) => format!("pat={} ev={},{}", hexbits(&bits), hx(c.transition.evaluate_ith_divisor::<B>(k - 1, x1)), hx(c.transition.evaluate_ith_divisor::<B>(k - 1, x2))),
+                },
+            };
+            out.push(format!("lagd {} {:x} {:x} {} {} {} {} => {}", B::NAME, n, k, hx(g), if n <= (1usize << lf) { "f" } else { "r" }, hx(x1), hx(x2), res));
+        }
+    }
+    // frames (from_lagrange_kernel_column_poly), numerators, evaluate_and_combine, boundary constraint on honest and
+    // corrupted Lagrange kernel columns: every row of the trace domain (x = z = g^i) and points outside it
+    let full: &[usize] = if B::NAME == "f64" { &[4, 8, 16, 32] } else { &[4, 8, 16] };
+    for &n in full.iter().chain(if B::NAME == "f64" { [64usize].iter() } else { [].iter() }) {
+        let v = n.ilog2() as usize;
+        let g: B = root(n);
+        let rs: Vec<B> = (0..v).map(|_| rand_elem(r)).collect();
+        let coefs: Vec<B> = (0..v).map(|_| rand_elem(r)).collect();
+        let cb: B = rand_elem(r);
+        let honest = lag_kernel_column(&rs, n);
+        let mut cols: Vec<Vec<B>> = vec![honest.clone()];
+        // one corrupted column per constraint k: a row of the form odd * 2^(v-k), which constraints 1..k-1 do not read
+        for k in 1..=v {
+            if n > 32 && k != v && k != 1 { continue; }
+            let t = v - k;
+            let j = (2 * r.below(1u64 << (k - 1)) as usize + 1) << t;
+            let mut c = honest.clone();
+            c[j] += B::ONE + rand_elem(r);
+            cols.push(c);
+        }
+        cols.push((0..n).map(|_| rand_elem(r)).collect());
+        let cons = lag_with::<B>(n, &coefs, cb, &rs);
+        for col in &cols {
+            let poly = lag_interpolate(col);
+            let mut pts: Vec<(B, B)> = vec![];
+            let mut z = B::ONE;
+            for i in 0..n { if n <= 32 || i % 8 < 3 { pts.push((z, z)); } z *= g; }
+            let o: B = rand_elem(r);
+            pts.push((o, o));
+            pts.push((rand_elem(r), rand_elem(r)));
+            for (z, x) in pts {
+                let res = catch(AssertUnwindSafe(|| {
+                    let frame = LagrangeKernelEvaluationFrame::from_lagrange_kernel_column_poly(&poly, z);
+                    let nums: Vec<String> = (0..v).map(|i| catch(AssertUnwindSafe(|| hx(cons.transition.evaluate_ith_numerator::<B>(&frame, &rs, i)))).unwrap_or_else(|_| "panic".into())).collect();
+                    let comb = catch(AssertUnwindSafe(|| hx(cons.transition.evaluate_and_combine::<B>(&frame, &rs, x)))).unwrap_or_else(|_| "panic".into());
+                    format!("frame={} nums={} comb={} bnd={}/{}/{}", hxl(frame.inner()), nums.join(","), comb,
+                        hx(cons.boundary.evaluate_numerator_at(&frame)), hx(cons.boundary.evaluate_denominator_at(x)), hx(cons.boundary.evaluate_at(x, &frame)))
+                })).unwrap_or_else(|_| "panic".into());
+                out.push(format!("lagc {} {:x} {} {} {} {} {} {} {} => {}", B::NAME, n, hx(g), hx(z), hx(x), hx(cb), hxl(&coefs), hxl(&rs), hxl(&poly), res));
+            }
+        }
+    }
+    // ill-sized inputs: frames, random elements and coefficient vectors of every length 0..v+2 (explicit frames, constraints
+    // built directly): which calls panic, what the zips truncate
+    for v in [1usize, 2, 3] {
+        for fl in 0..=v + 2 { for rl in 0..=v + 2 { for cl in (0..=v + 1).rev().take(3) {
+            let frame: Vec<B> = (0..fl).map(|_| rand_elem(r)).collect();
+            let rs: Vec<B> = (0..rl).map(|_| rand_elem(r)).collect();
+            let coefs: Vec<B> = (0..cl).map(|_| rand_elem(r)).collect();
+            let x: B = rand_elem(r);
+            let res = catch(AssertUnwindSafe(|| {
+                let tc = LagrangeKernelTransitionConstraints::new(coefs.clone());
+                let fr = LagrangeKernelEvaluationFrame::new(frame.clone());
+                let nums: Vec<String> = (0..cl + 1).map(|i| catch(AssertUnwindSafe(|| hx(tc.evaluate_ith_numerator::<B>(&fr, &rs, i)))).unwrap_or_else(|_| "panic".into())).collect();
+                let comb = catch(AssertUnwindSafe(|| hx(tc.evaluate_and_combine::<B>(&fr, &rs, x)))).unwrap_or_else(|_| "panic".into());
+                format!("nc={:x} nums={} comb={}", tc.num_constraints(), nums.join(","), comb)
+            })).unwrap_or_else(|_| "panic".into());
+            out.push(format!("lagm {} {} {} {} {} => {}", B::NAME, hx(x), hxl(&coefs), hxl(&rs), hxl(&frame), res));
+        } } }
+    }
+}
+
 // ---------------------------------------------------------------- falsifier (brute-force oracle)
 struct Tally { evals: usize, fails: usize }
 impl Tally {
@@ -640,6 +809,11 @@ fn main() {
                 "bc" => { corr_bc::<f64::BaseElement>(&mut r, nmax, &mut out); corr_bc::<f62::BaseElement>(&mut r, nmax, &mut out); corr_bc::<f128::BaseElement>(&mut r, nmax, &mut out); }
                 "prep" => { corr_prep::<f64::BaseElement>(&mut r, nmax, &mut out); corr_prep_rand::<f62::BaseElement>(&mut r, nmax.min(32), &mut out); corr_prep_rand::<f128::BaseElement>(&mut r, nmax.min(16), &mut out); }
                 "ex" => corr_ex(nmax, &mut out),
+                "lag" => {
+                    let l: u32 = args.get(5).and_then(|s| s.parse().ok()).unwrap_or(12);
+                    let lf: u32 = args.get(6).and_then(|s| s.parse().ok()).unwrap_or(8);
+                    corr_lag::<f64::BaseElement>(&mut r, seed, l, lf, &mut out); corr_lag::<f62::BaseElement>(&mut r, seed, l, lf, &mut out); corr_lag::<f128::BaseElement>(&mut r, seed, l, lf, &mut out);
+                }
                 g => { eprintln!("unknown group {}", g); std::process::exit(2); }
             }
             let mut s = out.join("\n");
